@@ -780,7 +780,6 @@ impl LinkRelay<OutputHandle> {
             LinkRelay::Receiver {
                 tx,
                 flow_state,
-                receiver_settle_mode,
                 more,
                 ..
             } => {
@@ -803,26 +802,27 @@ impl LinkRelay<OutputHandle> {
                 .await
                 .map_err(|_| LinkRelayError::UnattachedHandle)?;
 
+                // The session routes the sender's dispositions by delivery-id. The sender may
+                // settle an unsettled delivery at any time, whichever way the receiver settles,
+                // so the id is recorded in both receiver settle modes
                 if !settled {
-                    if let ReceiverSettleMode::Second = receiver_settle_mode {
-                        // The delivery-id MUST be supplied on the first transfer of a
-                        // multi-transfer delivery.
-                        // And self.more should be false upon the first transfer
-                        if !(*more) {
-                            // The same delivery ID should be used for a multi-transfer delivery
-                            match (delivery_id, delivery_tag) {
-                                (Some(id), Some(tag)) => return Ok(Some((id, tag))),
-                                _ => {
-                                    // This should be an error, but it will be handled by
-                                    // the link instead of the session. So just return a None
-                                    return Ok(None);
-                                }
+                    // The delivery-id MUST be supplied on the first transfer of a
+                    // multi-transfer delivery.
+                    // And self.more should be false upon the first transfer
+                    if !(*more) {
+                        // The same delivery ID should be used for a multi-transfer delivery
+                        match (delivery_id, delivery_tag) {
+                            (Some(id), Some(tag)) => return Ok(Some((id, tag))),
+                            _ => {
+                                // This should be an error, but it will be handled by
+                                // the link instead of the session. So just return a None
+                                return Ok(None);
                             }
                         }
-                        // The last transfer of multi-transfer delivery should have
-                        // `more` set to false
-                        *more = transfer_more;
                     }
+                    // The last transfer of multi-transfer delivery should have
+                    // `more` set to false
+                    *more = transfer_more;
                 }
                 Ok(None)
             }
